@@ -261,16 +261,14 @@ func vpH_C09_frame() {
 // C09, re-entrancy: a stored-field / doc-value visitor calls another read API
 // on the same segment; the outer observation must equal the solo one.
 func vpH_C09_reentrant() {
-	total := 3
-	big := vpChoice("two-blocks", 2) == 1
-	if big {
-		total = 130
+	total := []int{3, 130, 300}[vpChoice("blocks", 3)]
+	if total > 3 {
 		vpNote("feat:two-blocks")
 	}
 	var docs []*vpDoc
 	for d := 0; d < total; d++ {
 		doc := &vpDoc{}
-		if d == 0 || d == total-1 {
+		if d == 0 || d == total-1 || d == 130 || d == 260 {
 			for j := 0; j < 2; j++ {
 				doc.fields = append(doc.fields, &vpField{name: "s", store: true, dv: true, value: []byte{byte('A' + d%7), byte('0' + j)}, length: 1,
 					terms: []*vpTerm{{term: []byte{byte('t'), byte('0' + j), byte('a' + d%7)}, freq: 1}}})
@@ -283,8 +281,8 @@ func vpH_C09_reentrant() {
 		seg = vpLoad(vpPersist(seg))
 	}
 	last := uint64(total - 1)
-	inner := vpChoice("inner", 4)
-	vpNote([]string{"inner:VisitStoredFields(other)", "inner:VisitStoredFields(same)", "inner:Dictionary", "inner:DocumentValueReader"}[inner])
+	inner := vpChoice("inner", 5)
+	vpNote([]string{"inner:VisitStoredFields(other)", "inner:VisitStoredFields(same)", "inner:Dictionary", "inner:DocumentValueReader", "inner:VisitStoredFields(two other blocks)"}[inner])
 	innerOp := func() {
 		switch inner {
 		case 0:
@@ -295,8 +293,16 @@ func vpH_C09_reentrant() {
 			vpReadOp(0, seg)
 		case 3:
 			vpReadOp(3, seg)
+		case 4:
+			// two more stored blocks are read while the outer visitor is still inside its callback
+			for _, n := range []uint64{130, 260} {
+				if n < uint64(total) {
+					_ = seg.VisitStoredFields(n, func(string, []byte) bool { return true })
+				}
+			}
 		}
 	}
+	vpPoolReuse(true) // a visit context put back into the pool is handed to the next visit
 	var solo, nested []byte
 	err := seg.VisitStoredFields(0, func(field string, value []byte) bool {
 		solo = append(solo, value...)
